@@ -50,14 +50,45 @@ type config struct {
 	fresh  func() *eval.Evaluator
 	reused *eval.Evaluator
 	isZero func(v any) (bool, bool) // (is a number, equals zero) with the configuration's own conversion
+	// conv is the harness's OWN conversion of a literal text to the number type of the evaluator (strconv at the bit
+	// size of the type / fXX.FromString, which C04 verifies); ok = false: not a number of that type (malformed or out
+	// of range).  The library's operand conversion (floatFrom / FixedFrom on strings) is never relied upon.
+	conv func(s string) (any, bool)
+}
+
+// opaque is a text the evaluator's number type cannot represent: the library sees "not a number" whatever its own
+// string conversion would say, and prints it like the string it is in the string fall-backs of == < + ….
+type opaque string
+
+func fixedConv[T fixed.Dx](s string) (any, bool) {
+	v, err := f64.FromString[T](s)
+	return v, err == nil
+}
+
+func float64Conv(s string) (any, bool) {
+	f, err := strconv.ParseFloat(s, 64)
+	return f, err == nil
+}
+
+func float32Conv(s string) (any, bool) {
+	f, err := strconv.ParseFloat(s, 32)
+	return float32(f), err == nil
 }
 
 func fixedIsZero[T fixed.Dx](v any) (bool, bool) {
-	x, err := eval.FixedFrom[T](v)
-	if err != nil {
-		return false, false
+	switch a := v.(type) {
+	case bool:
+		return true, !a
+	case f64.Int[T]:
+		return true, a == 0
+	case string:
+		x, err := f64.FromString[T](a)
+		if err != nil {
+			return false, false
+		}
+		return true, x == 0
 	}
-	return true, x == 0
+	return false, false
 }
 
 func floatIsZero(bits int) func(v any) (bool, bool) {
@@ -83,17 +114,19 @@ func floatIsZero(bits int) func(v any) (bool, bool) {
 func configs() []*config {
 	cs := []*config{
 		{name: "d4z", zero: true, fresh: func() *eval.Evaluator { return eval.NewFixedEvaluator[fixed.D4](valueResolver{}, true) },
-			isZero: fixedIsZero[fixed.D4]},
+			isZero: fixedIsZero[fixed.D4], conv: fixedConv[fixed.D4]},
 		{name: "d4e", zero: false, fresh: func() *eval.Evaluator { return eval.NewFixedEvaluator[fixed.D4](valueResolver{}, false) },
-			isZero: fixedIsZero[fixed.D4]},
+			isZero: fixedIsZero[fixed.D4], conv: fixedConv[fixed.D4]},
 		{name: "d2z", zero: true, fresh: func() *eval.Evaluator { return eval.NewFixedEvaluator[fixed.D2](valueResolver{}, true) },
-			isZero: fixedIsZero[fixed.D2]},
+			isZero: fixedIsZero[fixed.D2], conv: fixedConv[fixed.D2]},
 		{name: "f64z", zero: true, fresh: func() *eval.Evaluator { return eval.NewFloatEvaluator[float64](valueResolver{}, true) },
-			isZero: floatIsZero(64)},
+			isZero: floatIsZero(64), conv: float64Conv},
 		{name: "f64e", zero: false, fresh: func() *eval.Evaluator { return eval.NewFloatEvaluator[float64](valueResolver{}, false) },
-			isZero: floatIsZero(64)},
+			isZero: floatIsZero(64), conv: float64Conv},
 		{name: "f32e", zero: false, fresh: func() *eval.Evaluator { return eval.NewFloatEvaluator[float32](valueResolver{}, false) },
-			isZero: floatIsZero(32)},
+			isZero: floatIsZero(32), conv: float32Conv},
+		{name: "f32z", zero: true, fresh: func() *eval.Evaluator { return eval.NewFloatEvaluator[float32](valueResolver{}, true) },
+			isZero: floatIsZero(32), conv: float32Conv},
 	}
 	for _, c := range cs {
 		c.reused = c.fresh()
@@ -103,7 +136,8 @@ func configs() []*config {
 
 // node is the model's tree (prefix form printed by the Lean driver).
 type node struct {
-	kind     byte // 'N', 'O', 'F', 'T'
+	kind     byte // 'N', 'O', 'F', 'T'; 'G' = call with the model's trees of its arguments; 'X' 'M' 'P' = argument that is rejected / empty / a model panic
+	kids     []*node
 	un, op   string
 	hasUn    bool
 	hasOp    bool
@@ -134,6 +168,20 @@ func parseNode(t []string, i int) (*node, int) {
 		n.name = string(hx.UnHex(t[i+2]))
 		n.text = string(hx.UnHex(t[i+3]))
 		return n, i + 4
+	case "X", "M", "P":
+		return &node{kind: t[i][0]}, i + 1
+	case "G":
+		n := &node{kind: 'G'}
+		n.un, n.hasUn = optSym(t[i+1])
+		n.name = string(hx.UnHex(t[i+2]))
+		k := hx.Atoi(t[i+3])
+		j := i + 4
+		for a := 0; a < k; a++ {
+			var kid *node
+			kid, j = parseNode(t, j)
+			n.kids = append(n.kids, kid)
+		}
+		return n, j
 	case "T":
 		n := &node{kind: 'T'}
 		n.op, n.hasOp = optSym(t[i+1])
@@ -162,13 +210,83 @@ func (w *walker) operator(sym string) *eval.Operator {
 	panic("model tree names an operator the library does not have: " + sym)
 }
 
+// num converts a text operand with the harness's own conversion: a number of the evaluator's type, or opaque.
+func (w *walker) num(v any) any {
+	if s, ok := v.(string); ok {
+		if x, good := w.c.conv(s); good {
+			return x
+		}
+		return opaque(s)
+	}
+	return v
+}
+
+// binArgs prepares the operands of a binary operator: values when every text operand is a number of the evaluator's
+// type (by the harness's own conversion); otherwise the texts stay texts (the string fall-backs of == < + … print the
+// originals) and a text that is not a number is made opaque so that the library cannot take it for one.
+func (w *walker) binArgs(l, r any) (any, any) {
+	ln, rn := w.num(l), w.num(r)
+	_, lbad := ln.(opaque)
+	_, rbad := rn.(opaque)
+	if !lbad && !rbad {
+		return ln, rn
+	}
+	if lbad {
+		l = ln
+	}
+	if rbad {
+		r = rn
+	}
+	return l, r
+}
+
 func (w *walker) unary(n *node, v any) (any, error) {
 	if n.hasUn {
 		if o := w.operator(n.un); o.EvaluateUnary != nil {
-			return o.EvaluateUnary(v)
+			return o.EvaluateUnary(w.num(v))
 		}
 	}
 	return v, nil
+}
+
+var singleArg = map[string]bool{"abs": true, "cbrt": true, "ceil": true, "exp": true, "exp2": true, "floor": true, "log": true,
+	"log1p": true, "log10": true, "round": true, "sqrt": true}
+
+// call applies a library Function to the VALUES of the arguments (walked from the model's trees): the function is
+// handed the argument text `v(0),v(1),…` and an evaluator whose only function `v` yields the i-th value, lazily (so
+// `if` still evaluates only the branch it takes).
+func (w *walker) call(n *node) (any, error) {
+	f, ok := w.ev.Functions[n.name]
+	if !ok {
+		return nil, errInvalid
+	}
+	parts := make([]string, len(n.kids))
+	for i := range parts {
+		parts[i] = "v(" + strconv.Itoa(i) + ")"
+	}
+	e2 := &eval.Evaluator{Operators: w.ev.Operators, Functions: map[string]eval.Function{
+		"v": func(_ *eval.Evaluator, arguments string) (any, error) {
+			i := hx.Atoi(strings.TrimSpace(arguments))
+			v, err := w.walk(n.kids[i])
+			if err != nil {
+				return nil, err
+			}
+			if v == nil {
+				return nil, errInvalid
+			}
+			if s, isText := v.(string); isText {
+				switch {
+				case n.name != "if": // a number is expected
+					return w.num(s), nil
+				case i == 0: // condition: a number if it is one, else judged as a string
+					if x, good := w.c.conv(s); good {
+						return x, nil
+					}
+				}
+			}
+			return v, nil
+		}}}
+	return f(e2, strings.Join(parts, ","))
 }
 
 var errInvalid = fmt.Errorf("invalid")
@@ -181,7 +299,20 @@ func (w *walker) walk(n *node) (any, error) {
 		return nil, nil
 	case 'O':
 		return w.unary(n, n.text)
-	case 'F':
+	case 'X':
+		return nil, errInvalid
+	case 'M':
+		return "", nil
+	case 'P':
+		w.divFail = "the model panics on a function argument"
+		return nil, errInvalid
+	case 'G':
+		v, err := w.call(n)
+		if err != nil {
+			return nil, err
+		}
+		return w.unary(n, v)
+	case 'F': // (only when the nesting was too deep to expand) the library parses and evaluates the argument text
 		f, ok := w.ev.Functions[n.name]
 		if !ok {
 			return nil, errInvalid
@@ -205,6 +336,7 @@ func (w *walker) walk(n *node) (any, error) {
 		if o.Evaluate == nil {
 			return nil, errInvalid
 		}
+		l, r = w.binArgs(l, r)
 		v, err := o.Evaluate(l, r)
 		if n.op == "/" || n.op == "%" {
 			lok, _ := w.c.isZero(l)
@@ -230,9 +362,9 @@ func (w *walker) walk(n *node) (any, error) {
 	}
 	if v != nil {
 		if n.hasUn && w.operator(n.un).EvaluateUnary != nil {
-			v, err = w.operator(n.un).EvaluateUnary(v)
+			v, err = w.operator(n.un).EvaluateUnary(w.num(v))
 		} else if n.hasOp && w.operator(n.op).EvaluateUnary != nil {
-			v, err = w.operator(n.op).EvaluateUnary(v)
+			v, err = w.operator(n.op).EvaluateUnary(w.num(v))
 		}
 		if err != nil {
 			return nil, err
